@@ -80,3 +80,12 @@ char *strstr(const char *h, const char *nd) {
 	}
 	return 0;
 }
+
+char *strcpy(char *dst, const char *src) {
+	size_t i = 0;
+	for (; src[i] != 0; i++) {
+		dst[i] = src[i];
+	}
+	dst[i] = 0;
+	return dst;
+}
